@@ -48,17 +48,29 @@ def render(cfg) -> str:
     act = "box.send(self.payload)" if mb else "box.set()"
     if cfg["style"] == "plain":
         guard = "self.want_send and clr" if cfg["send"] == "guarded" else "self.want_send"
-        if cfg.get("order", "obs_first") == "act_first" and cfg["send"] == "always":
+        late = cfg.get("order", "obs_first") == "act_first"
+        # act_first: the exported observation comes from a call made *after* set()/clear() were traced in this
+        # context (the component then knows the context's role and answers directly instead of through the
+        # end-of-context "indirect" signal); the guard itself still has to be evaluated before the action
+        if late and cfg["send"] == "always":
             prod = f"            if self.want_send:\n                {act}\n                self.o_set ^= True\n"
             prod += "            self.o_pclear <<= box.is_clear()\n"
         else:
-            prod = "            clr = box.is_clear()\n            self.o_pclear <<= clr\n"
+            prod = "            clr = box.is_clear()\n"
+            if not late:
+                prod += "            self.o_pclear <<= clr\n"
             prod += f"            if {guard}:\n                {act}\n                self.o_set ^= True\n"
-        cons = "            seen = box.is_set()\n            self.o_cset <<= seen\n            self.o_payload <<= Null\n"
+            if late:
+                prod += "            self.o_pclear <<= box.is_clear()\n"
+        cons = "            seen = box.is_set()\n            self.o_payload <<= Null\n"
+        if not late:
+            cons += "            self.o_cset <<= seen\n"
         cons += "            if self.want_recv and seen:\n"
         if mb:
             cons += "                self.o_payload <<= box.data()\n"
         cons += "                box.clear()\n                self.o_clr ^= True\n"
+        if late:
+            cons += "            self.o_cset <<= box.is_set()\n"
         if cfg["topo"] == "same":
             body = cons + prod if cfg.get("first", "prod") == "cons" else prod + cons
             s += "        @ctx\n        def proc():\n" + body
